@@ -112,6 +112,8 @@ CLAIMED = {
              "(any refusal pattern, any history of |d|psi|^2| values) and hence in every whole history (all_steps_bounded); adaptivity off => every step equals dt_init and a refusal "
              "raises; after the warm-up window the proposal equals min(1/2 (dt + dt_init/delta), dt_max) with delta = "
              "max(1e-10, windowed mean); the step used is tentative * mult^r with r = number of refusals <= max_retries+1; "
+             "Model.Update wraps the retry loop around the solve step: an answered update is the step at the reported dt and "
+             "every larger attempt was refused by the step itself; the adaptive solver loop is a run_steps run with the chosen dt; "
              "exhausting the retries raises. Correspondence: real TDGLSolver.update stepped with injected refusals over random "
              "settings vs Model.Adapt.astep (PrimFloat, dt used bit-exact, proposal to 1e-12); oracle = documented rule in Python.",
         note="Coq kernel; stdlib real-number axioms; np.mean summation order compared with tolerance 1e-12.",
